@@ -1,37 +1,32 @@
-"""Reported by a seeding sub-agent as pre-existing (wave 4, C05): a QUEUED request is assigned a fresh
-connection by another request's assignment pass and is cancelled before it resumes (the cancellation
-is delivered at its wait).  Nobody drives the connection the pool created for it: it stays CONNECTING
-for ever (not available, not idle, not closed) and with max_connections=1 the pool is dead."""
-import anyio, httpcore, sys
-
+"""C05 / C07 (found by obligation `request_leaving_with_an_unused_assigned_connection_does_not_strand_it`, first reported
+by a seeding sub-agent as pre-existing): a QUEUED request is assigned a newly created connection by another request's
+assignment pass and is cancelled natively (asyncio Task.cancel(), e.g. asyncio.wait_for) before it resumes: the
+CancelledError is thrown at its wait.  Nobody drives the connection the pool created for it: it stays CONNECTING for ever
+(not available, not idle, not closed) and with max_connections=1 the pool is dead.  (Under anyio / trio *scope*
+cancellation a woken waiter is not cancelled at the wait, so the scope variant does not reproduce; the sync twin has the
+same window between Event.wait timing out and the assigner's set().)  Repaired by the fix: commit recorded in
+known_findings.json; prints `not reproduced` on the repaired tree."""
+import asyncio, httpcore, sys
 async def main():
     b = httpcore.AsyncMockBackend([b"HTTP/1.1 200 OK\r\nContent-Length: 0\r\n\r\n"])
     async with httpcore.AsyncConnectionPool(network_backend=b, max_connections=1) as pool:
-        out = {}
-        async with pool.stream("GET", "http://a.example/") as r1:      # holds the only slot
-            async with anyio.create_task_group() as tg:
-                scope = anyio.CancelScope()
-                async def queued():
-                    with scope:
-                        try:
-                            await pool.request("GET", "http://b.example/")
-                            out["R2"] = "ok"
-                        except BaseException as e:
-                            out["R2"] = type(e).__name__
-                            raise
-                tg.start_soon(queued)
-                await anyio.sleep(0.05)            # R2 is now waiting in the queue
-                await r1.aclose()                  # the pass evicts a.example's idle connection and assigns R2 a fresh one
-                scope.cancel()                     # ... and R2 is cancelled before it resumes
-        print("R2:", out, "| pool:", pool.connections)
+        async with pool.stream("GET", "http://a.example/") as r1:
+            t = asyncio.ensure_future(pool.request("GET", "http://b.example/"))
+            await asyncio.sleep(0.05)
+            await r1.aclose()
+            print("after aclose:", pool.connections)
+            t.cancel()
+            try:
+                await t
+            except BaseException as e:
+                print("R2:", type(e).__name__)
+        print("pool:", pool.connections)
         try:
             r = await pool.request("GET", "http://c.example/", extensions={"timeout": {"pool": 0.3}})
             nxt = r.status
         except Exception as e:
             nxt = type(e).__name__
         print("next request:", nxt)
-    bad = nxt != 200
-    print("DEFECT-REPRODUCED" if bad else "not reproduced")
-    return 1 if bad else 0
-
-sys.exit(anyio.run(main))
+    print("DEFECT-REPRODUCED" if nxt != 200 else "not reproduced")
+    return 0 if nxt == 200 else 1
+sys.exit(asyncio.run(main()))
